@@ -644,6 +644,10 @@ func c16StreamChild(c *Ctx, w *bufio.Writer, startAt int, part int) error {
 	structSrc := "package main\ntype In struct {\n\tx uint8\n\ty uint8\n}\nfunc main(a uint8, b In) uint16 {\n\treturn uint16(a) + uint16(b.x) * 3 + uint16(b.y) * 7\n}\n"
 	arraySrc := "package main\nfunc main(a uint8, b [4]uint8) uint16 {\n\treturn uint16(a) + uint16(b[0]) + uint16(b[1]) * 3 + uint16(b[2]) * 5 + uint16(b[3]) * 7\n}\n"
 	wideSrc := "package main\nfunc main(a, b uint32) uint32 {\n\treturn a + b\n}\n"
+	wideOutSrc := "package main\nfunc main(a, b uint64) (uint128, bool, uint70) {\n\treturn uint128(a)<<64 | uint128(b), a > b, uint70(a) + uint70(b)\n}\n"
+	wa, _ := new(big.Int).SetString("18446744073709551615", 10)
+	wb, _ := new(big.Int).SetString("18446744073709551601", 10)
+	wideOutWant := []*big.Int{new(big.Int).Or(new(big.Int).Lsh(wa, 64), wb), big.NewInt(1), new(big.Int).Add(wa, wb)}
 	bits4 := []byte{0x01, 0x02, 0x04, 0x08}
 	bits8 := []byte{0x01, 0x02, 0x04, 0x08, 0x10, 0x20, 0x40, 0x80}
 	// quick tier: the evaluator argument's descriptor (offsets 56..92 in these programs: name,
@@ -664,11 +668,15 @@ func c16StreamChild(c *Ctx, w *bufio.Writer, startAt int, part int) error {
 		kind   string // "flip" (xor mask) or "replace" (set byte to mask)
 		masks  []byte
 		lo, hi int
+		want   []*big.Int // expected honest result (nil: taken from the honest run)
 	}{
-		{"stream-struct-g2e", structSrc, []string{"1"}, []string{"200", "100"}, "replace", []byte{0x04, 0xff}, 36, 140},
-		{"stream-scalar8-g2e", c16StreamProgram, []string{"77"}, []string{"218"}, "flip", scalarMasks, lo, hi},
-		{"stream-scalar32-g2e", wideSrc, []string{"305419896"}, []string{"4275878552"}, "flip", scalarMasks, lo, hi},
-		{"stream-array-g2e", arraySrc, []string{"1"}, []string{"0xc8641e0a"}, "flip", arrayMasks, lo, hi},
+		{"stream-struct-g2e", structSrc, []string{"1"}, []string{"200", "100"}, "replace", []byte{0x04, 0xff}, 36, 140, []*big.Int{big.NewInt(1 + 600 + 700)}},
+		// outputs wider than a machine word that are not the last output: what the garbler RETURNS
+		// after all labels passed its check goes through IO.Split
+		{"stream-wide-outputs-g2e", wideOutSrc, []string{"18446744073709551615"}, []string{"18446744073709551601"}, "flip", []byte{0x01}, lo, lo + 6, wideOutWant},
+		{"stream-scalar8-g2e", c16StreamProgram, []string{"77"}, []string{"218"}, "flip", scalarMasks, lo, hi, nil},
+		{"stream-scalar32-g2e", wideSrc, []string{"305419896"}, []string{"4275878552"}, "flip", scalarMasks, lo, hi, nil},
+		{"stream-array-g2e", arraySrc, []string{"1"}, []string{"0xc8641e0a"}, "flip", arrayMasks, lo, hi, nil},
 	}
 	fi := len(faults)
 	for _, sw := range sweeps {
@@ -680,7 +688,7 @@ func c16StreamChild(c *Ctx, w *bufio.Writer, startAt int, part int) error {
 			fmt.Fprintf(w, "BASEFAIL %s baseline: %v %v %s\n", sw.dir, serr, sst, bigsString(swant))
 			return nil
 		}
-		if sw.dir == "stream-struct-g2e" && bigsString(swant) != bigsString([]*big.Int{big.NewInt(1 + 600 + 700)}) {
+		if sw.want != nil && bigsString(swant) != bigsString(sw.want) {
 			fmt.Fprintf(w, "BASEFAIL %s baseline: wrong value %s\n", sw.dir, bigsString(swant))
 			return nil
 		}
